@@ -120,7 +120,8 @@ fn well_formed(apts: &[Apt]) -> Vec<WellFormed> {
         ("@0,0".to_string(), Some((0.0, 0.0))),
         ("@-89.5,-179.25".to_string(), Some((-89.5, -179.25))),
     ];
-    let hosts = ["localhost", "1.2.3.4", "example.org", "[::1]", "0.0.0.0", "a-b.c"];
+    // (upper-case letters only with tcp/udp: a ws:// URL is lower-cased by the URL parser, see the observations)
+    let hosts = ["localhost", "1.2.3.4", "example.org", "[::1]", "0.0.0.0", "a-b.c", "Radarcape.local", "EXAMPLE.ORG"];
     let ports = [0u32, 1, 80, 4003, 10003, 30005, 65535];
     let mut v = Vec::new();
     for (r, pos) in &refs {
@@ -143,6 +144,9 @@ fn well_formed(apts: &[Apt]) -> Vec<WellFormed> {
                     });
                 }
                 v.push(WellFormed { spec: format!("udp://{hp}{r}"), expect: Address::Udp(hp.clone()), tables: vec![format!("udp = \"{hp}\"")], reference: *pos });
+                if h.chars().any(|c| c.is_ascii_uppercase()) {
+                    continue;
+                }
                 for path in ["/", "/get", "/a/b", "/4003"] {
                     let url = format!("ws://{hp}{path}");
                     v.push(WellFormed {
@@ -346,6 +350,22 @@ pub fn run(ctx: &Ctx, rep: &Report) {
     run_specs(&shorts);
     total += shorts.len() as u64;
     rep.part("short strings", shorts.len() as u64, json!({"max_len": maxlen, "alphabet": SHORT_ALPHABET.iter().collect::<String>()}));
+    // (b') long specifications: a multi-byte character at every byte offset up to 140, for every scheme, in the
+    // host, the path and the reference (byte-indexed slicing of the text shows only on long inputs)
+    let mut longs: Vec<String> = Vec::new();
+    for sc in SCHEMES {
+        for k in (0..=140usize).step_by(if ctx.thorough() { 1 } else { 1 }) {
+            let a = "a".repeat(k);
+            for ch in ['\u{e9}', '\u{20ac}'] {
+                longs.push(format!("{sc}{a}{ch}aaaa:4003"));
+                longs.push(format!("{sc}host.example.org/{a}{ch}/raw:30005@LFBO"));
+                longs.push(format!("{sc}host.example.org:4003@{a}{ch}"));
+            }
+        }
+    }
+    run_specs(&longs);
+    total += longs.len() as u64;
+    rep.part("long strings with multi-byte characters", longs.len() as u64, json!({"max_bytes": longs.iter().map(|s| s.len()).max()}));
     // (c) reference strings directly, every airport code
     let mut o = BTreeMap::new();
     let mut pos_cases = 0u64;
